@@ -24,6 +24,9 @@ def r1_folder_vs_vm(ctx, T, rule="C14.R1"):
     one, htab = T.handler_table()
     folder_fn = T.folder_fn()
     t2q = {t: q for q, t in T.qualifier_tags().items()}
+    from . import c06
+    normalised = c06._self_normalising_ops(prog, T)
+    q2t = T.qualifier_tags()
     for op in prog.variants(ot.OP):
         hs = htab.get(op, [])
         if len(hs) != 1:
@@ -38,6 +41,9 @@ def r1_folder_vs_vm(ctx, T, rule="C14.R1"):
                 ftags, ferrs = T.folder(op, lt, rt)
                 vtags, verrs = T.vm(hs[0], lt, rt)
                 verrs = sorted({ERR_NAMES.get(e, e) for e in verrs})
+                if op in normalised and len(st) == 1 and None not in st and vtags:
+                    # the generated code converts the handler's result to the expression's static type
+                    vtags = [q2t[next(iter(st))]]
                 key = "%s:%s(%s,%s)" % (rule, op, lt, rt)
                 if "?" in ftags or "?" in vtags or "?" in ferrs or "?" in verrs:
                     ctx.unknown(rule, key, folder_fn.loc, "folder %s/%s vm %s/%s" % (ftags, ferrs, vtags, verrs))
